@@ -134,6 +134,7 @@ def main(argv=None):
             for e in r.get("ev", []):
                 phases[e["ph"]] = phases.get(e["ph"], 0) + 1
     cov["actions_exercised"] = {"phase_events": phases, "operations": ops}
+    cov["situations_exercised"] = plans.situations(recs)
     cov["samples"] = plans.samples(prop, recs)
     cov["distinct_nontrivial"] = nontrivial["count"]
     cov["evaluations"] = len(recs)
